@@ -104,8 +104,8 @@ func GenSyntax(r *rand.Rand, o SynGenOpts) *Grammar {
 	if o.Ambiguous {
 		s.injectAmbiguity(g)
 	}
-	if o.WithErrors {
-		s.injectErrors(g)
+	if o.WithErrors && !g.HasErrorAlts() {
+		s.injectErrors(g) // families that place their error alternatives themselves keep exactly those
 	}
 	return g
 }
